@@ -138,6 +138,8 @@ pub fn counting(ctx: &mut Ctx) {
         }
         // methods on sketchers: SuperMinHash::get_jaccard_index_estimate(&self, other) / SuperMinHash2
         if c % 3 == 0 {
+            // sketch sizes for which count/len is (mostly) not representable in f32, besides 1 and the dyadic 64
+            let n = [3usize, 7, 70, 300, 1, 64, 41, 1000][(c as usize / 3) % 8];
             let bh = BuildHasherDefault::<FnvHasher>::default();
             let mut s = superminhasher::SuperMinHash::<f64, u64, FnvHasher>::new(n, bh);
             for x in 0..5u64 {
@@ -157,6 +159,33 @@ pub fn counting(ctx: &mut Ctx) {
             let txt = match &r { Ok(Ok(v)) => v.clone(), _ => "ERR".to_string() };
             ctx.line(&format!("jac f64 {} | {}", join(&own_bits), join(&other_bits)), &txt);
             if mismatch { expect_err(ctx, "SuperMinHash::get_jaccard_index_estimate", false, &r, &own_bits, &other_bits); }
+            // the same method on the f32 instantiation: the result is an f64 and must be the f64 quotient count/len (not an f32 quotient widened)
+            {
+                let bh = BuildHasherDefault::<FnvHasher>::default();
+                let mut s = superminhasher::SuperMinHash::<f32, u64, FnvHasher>::new(n, bh);
+                for x in 0..5u64 { s.sketch(&x).unwrap(); }
+                let own: Vec<f32> = s.get_hsketch().clone();
+                let mut other = own.clone();
+                if mismatch {
+                    if c % 2 == 0 { other.push(0.5); } else if other.len() > 1 { other.pop(); } else { other.push(0.5); other.push(0.25); }
+                } else if n > 1 {
+                    other[0] = -1.0;
+                    for i in (1..other.len()).step_by(3) { other[i] = f32::from_bits(other[i].to_bits() + 1); }
+                }
+                let r = catch(std::panic::AssertUnwindSafe(|| s.get_jaccard_index_estimate(&other).map(fhx).map_err(|e| e.to_string())));
+                let own_bits: Vec<u64> = own.iter().map(|x| x.to_bits() as u64).collect();
+                let other_bits: Vec<u64> = other.iter().map(|x| x.to_bits() as u64).collect();
+                let txt = match &r { Ok(Ok(v)) => v.clone(), _ => "ERR".to_string() };
+                ctx.line(&format!("jac f64 {} | {}", join(&own_bits), join(&other_bits)), &txt);
+                if mismatch { expect_err(ctx, "SuperMinHash<f32>::get_jaccard_index_estimate", false, &r, &own_bits, &other_bits); }
+                else {
+                    let cnt = own.iter().zip(other.iter()).filter(|(a, b)| a == b).count();
+                    let want = fhx(cnt as f64 / own.len() as f64);
+                    if txt != want {
+                        ctx.oracle_failure(serde_json::json!({"kind":"impl_violates_property","what":"SuperMinHash<f32>::get_jaccard_index_estimate is not (equal positions)/(length) as an f64 quotient","len":own.len(),"equal":cnt,"got":txt,"want":want}));
+                    }
+                }
+            }
             let bh = BuildHasherDefault::<FnvHasher>::default();
             let mut s2 = superminhasher2::SuperMinHash2::<u64, u64, FnvHasher>::new(n, bh);
             for x in 0..5u64 {
